@@ -1265,7 +1265,7 @@ fn mutations(base: &RawArgs, ctx: &Ctx, rng: &mut Rng, per_output_budget: usize)
 // ---------------------------------------------------------------------------------------------
 // one case
 
-fn run_case(ci: &CaseInfo, rng: &mut Rng, r: &mut Report, per_output_budget: usize, verbose: bool) {
+fn run_case(ci: &CaseInfo, rng: &mut Rng, r: &mut Report, per_output_budget: usize, reuse: bool, verbose: bool) {
     let s = ci.spec;
     r.count("cases");
     let (world, ctx) = match build_pre(s, r) {
@@ -1421,24 +1421,42 @@ fn run_case(ci: &CaseInfo, rng: &mut Rng, r: &mut Report, per_output_budget: usi
     // every refusal would be explained by the content, not by the mutation)
     if let Some((sig, _)) = &accepted {
         let muts = mutations(&base, &ctx, rng, per_output_budget);
+        // A restored signer is reused for the next call only after a *refused* call that provably
+        // left its store untouched (dump equal to the pre-state dump); after an Ok or a panic, and
+        // always when `reuse` is off (thorough tier), the next call gets a newly restored signer.
+        let pre_dump = world.store.dump();
+        let mut held: Option<(vls_verif::world::Store, Arc<Node>)> = None;
         for (kind, a) in muts.iter() {
-            let t0 = Instant::now();
-            let node_m = match fresh(&world, &ctx) {
-                Ok(n) => n,
-                Err(e) => {
-                    r.inconclusive(&format!("restore failed: {}", e));
-                    return;
+            let (store_m, node_m) = match held.take() {
+                Some(x) => {
+                    r.count("raw.signer.reused_after_refusal");
+                    x
                 }
+                None => match world.crash_copy() {
+                    Ok(x) => {
+                        if x.1.with_channel(&ctx.id, |_c| Ok(())).is_err() {
+                            r.inconclusive("restored channel missing");
+                            return;
+                        }
+                        r.count("raw.signer.restored");
+                        x
+                    }
+                    Err(e) => {
+                        r.inconclusive(&format!("restore failed: {}", e));
+                        return;
+                    }
+                },
             };
-            let t1 = Instant::now();
             let res_m = raw(&node_m, &ctx.id, a);
-            let t2 = Instant::now();
-            drop(node_m);
-            let t3 = Instant::now();
-            let out = judge_raw(ci, &ctx, kind, a, &res_m, Some(&canon), r);
-            if verbose {
-                println!("  timing fresh={:?} raw={:?} drop={:?} judge={:?}", t1 - t0, t2 - t1, t3 - t2, t3.elapsed());
+            if reuse && matches!(res_m, Ok(Err(_))) {
+                if store_m.dump() == pre_dump {
+                    held = Some((store_m, node_m));
+                } else {
+                    r.count("raw.refused_call_changed_store");
+                    r.note(&format!("a refused raw call ({}) changed the persisted state; signer discarded", kind));
+                }
             }
+            let out = judge_raw(ci, &ctx, kind, a, &res_m, Some(&canon), r);
             if verbose {
                 println!("  {:28} {:?}", kind, res_m.as_ref().map(|x| x.as_ref().map(|_| "OK").map_err(|e| policy_tag(e))));
             }
@@ -1489,7 +1507,7 @@ fn main() {
     let start = Instant::now();
     let quick = cli.tier.is_quick();
     let shards: usize = if quick { 32 } else { 128 };
-    let cases_per_shard = cli.scaled(if quick { 20 } else { 150 });
+    let cases_per_shard = cli.scaled(if quick { 20 } else { 60 });
     let per_output_budget = if quick { 3 } else { 6 };
 
     // replay of a single case: --only <shard>:<case>
@@ -1502,7 +1520,7 @@ fn main() {
         let spec = gen_spec(&mut rng);
         println!("{}", serde_json::to_string_pretty(&spec_json(&spec)).unwrap());
         let ci = CaseInfo { spec: &spec, shard, case, seed: cli.seed };
-        run_case(&ci, &mut rng, &mut r, 64, true);
+        run_case(&ci, &mut rng, &mut r, 64, false, true);
         for v in &r.violations {
             println!("VIOLATION {} {}", v.signature, serde_json::to_string_pretty(&v.detail).unwrap());
         }
@@ -1515,7 +1533,7 @@ fn main() {
             let mut rng = case_rng(cli.seed, shard, case);
             let spec = gen_spec(&mut rng);
             let ci = CaseInfo { spec: &spec, shard, case, seed: cli.seed };
-            run_case(&ci, &mut rng, r, per_output_budget, false);
+            run_case(&ci, &mut rng, r, per_output_budget, quick, false);
         }
     });
 
@@ -1548,7 +1566,7 @@ fn main() {
                 "the HTLC lists handed to the signer are the untrimmed HTLCs (the API contract): every supplied HTLC has an output in the canonical transaction".into(),
                 "large commitment numbers are reached with the test-only counter setters followed by a regular sign+revoke round (which persists the state); such a state is reachable by that many regular rounds".into(),
                 "for the raw entry point the balances are part of the supplied transaction itself, so a +-1 on the to_local/to_remote value is a different content, judged against its own canonical transaction".into(),
-                "each raw call runs on a signer restored from a copy of the pre-state store (restore path trusted here; C11/C18 cover it); phase2 is judged on both a restored and the original in-memory signer".into(),
+                "each raw call runs on a signer restored from a copy of the pre-state store (restore path trusted here; C11/C18 cover it); in the quick tier a restored signer is reused for the next call only after a refused call whose store dump still equals the pre-state dump (never after an Ok or a panic), in the thorough tier every call gets a newly restored signer; phase2 is judged on both a restored and the original in-memory signer".into(),
             ],
             start,
             extra_coverage: Default::default(),
